@@ -1156,6 +1156,11 @@ def rule_factory(ctx):
             passed = {cp[i] for i in range(min(len(e.args), len(cp)))} | set((e.kwargs or {}))
             if "shared_memory" not in passed:
                 why = "shared_memory is not forwarded"
+            # a constructor parameter the factory also has may be left to the class default only where the caller gave None
+            from .rules_hh import _none_side
+            for p_ in cp:
+                if p_ in fac.params and p_ not in passed and _none_side(e, p_) is not True:
+                    why = "`%s` is not forwarded on a path that did not decide `%s is None`: a falsy value (0) is replaced by the class default" % (p_, p_)
             res.append((not why, why or "%s(...) receives the same-named factory parameters" % cls.name, fact_strs(e)))
         agg(ctx, "argsdict", fac, g[0].node, unparse(g[0].node, 90), "the factory forwards each argument to the same-named constructor parameter", res)
     if not calls:
@@ -1494,6 +1499,17 @@ def rule_value_fwd(ctx, classes=SKETCH_CLASSES):
     add_ngram(key, n): the whole key and n itself reach the n-gram kernel."""
     F = facts_of(ctx)
     for cls in F.classes(classes):
+        ma = cls.methods.get("add")
+        if ma is not None and "value" in ma.params and cls.module.short != "hyperloglog":
+            # add(key) adds the key once: the multiplicity defaults to 1 (update(list) relies on it)
+            a_ = ma.node.args
+            pos = [x.arg for x in a_.posonlyargs + a_.args]
+            defaults = dict(zip(pos[len(pos) - len(a_.defaults):], a_.defaults)) if a_.defaults else {}
+            dv = defaults.get("value")
+            okk = isinstance(dv, ast.Constant) and dv.value == 1 and not isinstance(dv.value, bool)
+            ctx.ob("value-fwd", ma, dv or ma.node, "%s(key, value=%s)" % (ma.qualname, unparse(dv) if dv is not None else "<required>"),
+                   "a bare add(key) counts the key once (default multiplicity 1)", bool(okk),
+                   "" if okk else "the default multiplicity is not 1")
         mn = cls.methods.get("add_ngram")
         if mn is not None:
             wn = F.walk(mn)
